@@ -112,6 +112,15 @@ func verifyAll(r *mon.Run, c Case, what string, pub ed25519.PublicKey, m, sig []
 			if all != want {
 				r.Violate(fmt.Sprintf("%s/batch-%s/all/want=%v", what, name, want), fmt.Sprintf("batch overall=%v want %v", all, want), c)
 			}
+			// batch-only verification of the same (reused) verifier: true iff all valid and no cofactorless entry
+			cofactorless := o.Verify != nil && o.Verify.CofactorlessVerify
+			for rep := 0; rep < 2; rep++ {
+				var only bool
+				if pan4, _ := mon.Try(func() { only = bv.VerifyBatchOnly(nil) }); pan4 || only != (want && !cofactorless) {
+					r.Violate(fmt.Sprintf("%s/batch-only-%s/want=%v", what, name, want && !cofactorless), fmt.Sprintf("VerifyBatchOnly call %d = %v", rep+1, only), c)
+					break
+				}
+			}
 		}
 	}
 }
